@@ -432,10 +432,10 @@ func HarnessFault() {
 	c := zzConfig()
 	path := zz.TempPath("fault.db")
 	withReader := zz.Param("reader", 1) == 1 && zz.Choose(2) == 1
-	if withReader && c.initMmap < 128<<10 {
+	if withReader && c.initMmap < 256*c.pageSize {
 		// a remap blocks until every reader has closed (documented); with the reader held by this
 		// same goroutine that would be a harness-made deadlock, so the map is made large enough
-		c.initMmap = 128 << 10
+		c.initMmap = 256 * c.pageSize
 	}
 	db := zzMustOpen(path, c, "fault")
 	zzSetup(db, zz.Param("setup", 1))
